@@ -73,7 +73,16 @@ func genGate(r *Rng, prop string, k int) *RunSpec {
 	st := newStd(o)
 	// a tombstone and a value with hidden recipients for the handler
 	tomb := hostPrefix(st) + "/n/tomb"
-	st.W.Servers[0].Docs = append(st.W.Servers[0].Docs, DocSpec{tomb, mustJSON(J{"@context": asCtx, "type": "Tombstone", "id": tomb, "formerType": "Note", "deleted": "2020-01-01T00:00:00Z"})})
+	tombDoc := J{"@context": asCtx, "type": "Tombstone", "id": tomb, "formerType": "Note", "deleted": "2020-01-01T00:00:00Z"}
+	switch r.Intn(4) {
+	case 0:
+		tombDoc["type"] = []string{"Tombstone", "Note"} // several types: still a Tombstone
+	case 1:
+		if ad, ok := aliasBody(mustJSON(tombDoc), "as"); ok { // stored in the vocabulary-prefixed spelling: still a Tombstone
+			tombDoc = mustParseJ(ad)
+		}
+	}
+	st.W.Servers[0].Docs = append(st.W.Servers[0].Docs, DocSpec{tomb, mustJSON(tombDoc)})
 	if r.Intn(5) == 0 {
 		// the application also handles types the library has no default behaviour for (parents of handled types among them)
 		cbs := map[string]string{}
@@ -392,6 +401,14 @@ func oracleGate(c *DriveCtx, res *Result) {
 		}
 	}
 	for _, t := range res.Tasks {
+		if t.Parent == nil && t.Req != nil && t.done && t.Panic != nil {
+			// a panic is C11's finding - except that a request for a disabled protocol has no business reaching any code that could
+			if srv := s.World.Servers[t.Srv]; srv != nil && !protoEnabled(srv, t.EntryKind) {
+				if ge, ok := ex.Req[t.ID]; ok && ge.Hdr == "ap" && ((strings.HasPrefix(t.EntryKind, "post") && ge.Method == "POST") || (strings.HasPrefix(t.EntryKind, "get") && ge.Method == "GET")) {
+					s.violate("C07", "disabled-protocol-not-refused", t.EntryKind, fmt.Sprintf("%s with its protocol disabled went on into request handling and panicked (%v) instead of answering 405", t.EntryKind, t.Panic))
+				}
+			}
+		}
 		if t.Parent != nil || t.Req == nil || !t.done || t.Panic != nil {
 			continue // a panic is C11's finding
 		}
@@ -562,7 +579,7 @@ func oracleGate(c *DriveCtx, res *Result) {
 				}
 				continue
 			}
-			if m, err := parseJ([]byte(d)); err == nil && typeOf(m) == "Tombstone" {
+			if m, err := parseJ([]byte(d)); err == nil && isTombstoneDoc(m) {
 				want = 410
 			}
 			allow([]int{want}, false)
@@ -610,4 +627,18 @@ func init() {
 			"writes made by the application inside Authenticate* (it is told to answer on denial) are attributed to the application",
 			"a failing ResponseWriter.Write is outside the quantifier and is not injected"},
 	})
+}
+
+// isTombstoneDoc: one of the document's types is Tombstone (plain or with the prefix its @context binds to ActivityStreams).
+func isTombstoneDoc(m J) bool {
+	names := map[string]bool{"Tombstone": true}
+	for _, a := range asAliases(m["@context"]) {
+		names[a+":Tombstone"] = true
+	}
+	for _, t := range aslist(m["type"]) {
+		if ts, ok := t.(string); ok && names[ts] {
+			return true
+		}
+	}
+	return false
 }
